@@ -132,6 +132,7 @@ def run(cid, tier="quick", seed=0, jobs=None, only=None):
         for k, v in r.get("extra", {}).items():
             extra[k] = extra.get(k, 0) + v
         for f in r.get("failures", []):
+            f["what"] = " ".join(str(f.get("what", "")).split())
             failures.append((r["key"], f))
 
     kf = known_findings()
@@ -154,6 +155,9 @@ def run(cid, tier="quick", seed=0, jobs=None, only=None):
     violations = []
     unreproducible = []
     os.makedirs(os.path.join(ROOT, "replays"), exist_ok=True)
+    for old in os.listdir(os.path.join(ROOT, "replays")):
+        if old.startswith(cid + "-"):
+            os.unlink(os.path.join(ROOT, "replays", old))
     for fk in sorted(new):
         lst = sorted(new[fk], key=lambda kf_: (kf_[1].get("size", 10 ** 9), len(kf_[0]), kf_[0]))
         key, f = lst[0]  # smallest witness for this finding
